@@ -656,9 +656,30 @@ def judge_c02_group(cases, lab):
             if not same_outcome(first, again):
                 res.bad("memo-value-" + name, "re-evaluation (%s) returned %s instead of %s" % (
                     name, observe.describe(again), observe.describe(first)))
+    # across the whole history: a cached dataset's body runs at most once per distinct demand
+    # (dataset, options its sub-graph mentions) -- also when it is reached through different parents
+    g = _fresh(cases[0], lab)
+    demands = {}
+    lazy = False
+    for c in cases:
+        r = observe.call(lambda: g.root.evaluate(copy.deepcopy(dec(c["a"]["o"]))), lab)
+        lazy = lazy or r.get("lazy")
+        for dm in c["a"]["dem"]:
+            demands.setdefault(dm["d"], set()).add(canon_val(dm["oe"]))
+    if not lazy:
+        total = {}
+        for e in g.log:
+            if e[0] == "body" and e[3] in cached_bodies:
+                total[e[3]] = total.get(e[3], 0) + 1
+        for d, n in total.items():
+            if n > len(demands.get(d, ())):
+                out[id(cases[-1])].bad("runs-per-history", "dataset node %d ran %d times over the history of %d evaluations; it was demanded under %d distinct option assignments" % (
+                    d, n, len(cases), len(demands.get(d, ()))))
     # effects attached after the dataset has been used run for every later body execution
     root_nd = nodes[-1]
-    if root_nd["k"] == "ds" and len(cases) >= 2:
+    if root_nd["k"] == "ds" and len(cases) >= 2 and (root_nd["cb"] or not root_nd["disp"]):
+        # (with a dispatch and no callback the harness cannot tell whether the dataset itself was
+        # computed: a registered implementation runs instead of its own body)
         g = _fresh(cases[0], lab)
         first = observe.call(lambda: g.root.evaluate(copy.deepcopy(dec(cases[0]["a"]["o"]))), lab)
         if not first.get("lazy"):
